@@ -482,6 +482,10 @@ func reqScripted() []reqCfg {
 		{Opts: []reqCtxOpt{{Retry: 5 * sec, SendExp: 2 * sec, RecvExp: 3 * sec}}, Steps: []string{"send c0", "adv 1.999999s", "adv 1us", "conn", "send c0", "recv c0", "adv 2.999999s", "adv 1us", "recv c0", "adv 10s"}},
 		// best effort and fail-no-peers
 		{Opts: []reqCtxOpt{{Retry: 5 * sec, BestEffort: true}, {Retry: 5 * sec, FailNoPeers: true}}, Steps: []string{"send c0", "send c1", "recv c1", "conn", "recv c0", "send c1", "recv c1", "drop p1", "send c1", "adv 6s"}},
+		// a best-effort request that never found a connection and is given up by the receive deadline leaves nothing
+		// behind: the next Recv has no request to wait for (protocol-state error, not a wait), also once a peer is there
+		{Opts: []reqCtxOpt{{Retry: 5 * sec, BestEffort: true, RecvExp: 3 * sec}}, Steps: []string{"send c0", "recv c0", "adv 2.999999s", "adv 1us", "recv c0", "adv 4s", "conn", "recv c0", "adv 4s", "send c0", "recv c0", "reply p1 cur c0"}},
+		{Opts: []reqCtxOpt{{Retry: 5 * sec, BestEffort: true, RecvExp: 3 * sec}}, Steps: []string{"conngated", "send c0", "send c0", "recv c0", "adv 3s", "recv c0", "release p1", "recv c0", "adv 10s"}},
 		// contexts that inherit the socket's retry time, deadlines and modes behave like the socket's own context:
 		// retry on a silent peer, re-send when the connection goes, receive deadline
 		{Inherit: true, Opts: []reqCtxOpt{{Retry: 5 * sec, RecvExp: 30 * sec}, {Retry: 5 * sec, RecvExp: 30 * sec}}, Steps: []string{"conn", "send c1", "recv c1", "adv 4.999999s", "adv 1us", "conn", "drop p1", "reply p2 cur c1", "send c1", "recv c1", "adv 29.999999s", "adv 1us", "recv c1"}},
